@@ -395,10 +395,24 @@ func (g *c19Gen) object(n *c19Node, depth int) map[string]interface{} {
 			vhNode := n.c19FindField("virtual_hosts").Node.Elem
 			dir := g.newDir("virtual_hosts")
 			cnt := g.r.Intn(4)
+			naming := g.r.Intn(10) // per directory: 0 equal names, 1 no names, 2 names with a path separator, else unique
 			for i := 0; i < cnt; i++ {
 				vh := g.object(vhNode, depth-1)
+				c19DelFold(vh, "name")
 				vh["name"] = g.name("vh")
-				g.writeDyn(dir, vh["name"].(string), vh)
+				if !g.sys {
+					// virtual hosts are keyed by their domains, not by their name: the name is free text, may be
+					// empty and need not be unique
+					switch naming {
+					case 0:
+						vh["name"] = "same"
+					case 1:
+						delete(vh, "name")
+					case 2:
+						vh["name"] = "dir/" + vh["name"].(string)
+					}
+				}
+				g.writeDyn(dir, fmt.Sprintf("%d", i), vh)
 			}
 			delete(obj, "virtual_hosts")
 			obj["router_configs"] = g.dirRef(dir)
@@ -411,8 +425,12 @@ func (g *c19Gen) object(n *c19Node, depth int) map[string]interface{} {
 			cnt := g.r.Intn(4)
 			for i := 0; i < cnt; i++ {
 				cl := g.object(clNode, depth-1)
+				c19DelFold(cl, "name")
 				cl["name"] = g.name("cl")
-				g.writeDyn(dir, cl["name"].(string), cl)
+				if !g.sys && g.chance(10) {
+					cl["name"] = "dir/" + cl["name"].(string)
+				}
+				g.writeDyn(dir, fmt.Sprintf("%d", i), cl)
 			}
 			delete(obj, "clusters")
 			obj["clusters_configs"] = g.dirRef(dir)
@@ -456,7 +474,7 @@ func (g *c19Gen) dynPct() int {
 	if g.sys {
 		return 30
 	}
-	return 8
+	return 15
 }
 
 func (g *c19Gen) dirRef(dir string) string {
@@ -721,4 +739,13 @@ func c19ClampFree(v interface{}) interface{} {
 		}
 	}
 	return v
+}
+
+// c19DelFold removes every case variant of a key (the generator sometimes spells keys in another case).
+func c19DelFold(m map[string]interface{}, key string) {
+	for k := range m {
+		if strings.EqualFold(k, key) {
+			delete(m, k)
+		}
+	}
 }
